@@ -139,3 +139,57 @@ Proof.
      destruct (negb (cs_nonce_ok _ tx)); [reflexivity|];
      destruct (negb (cs_validate_ok cfg tx)); reflexivity).
 Qed.
+
+(* ---------- later reads ---------- *)
+(* What a later call reads through the state context (transaction cache, block cache, state
+   cache, trie) is, in the model, the committed node map [st_nodes].  The writes of the calls that
+   were applied successfully, in order: *)
+Fixpoint cs_committed_writes (cfg : cs_cfg) (st : cs_state) (h : list cs_item) : list (Z * option Z) :=
+  match h with
+  | [] => []
+  | (round, tx, r) :: tl =>
+      let o := cs_update_state cfg st round tx r in
+      (match o, tx_type tx, r with
+       | Applied _ _ _ _, TSC, SCOk ws _ _ _ _ => ws
+       | _, _, _ => []
+       end) ++ cs_committed_writes cfg (cs_post st o) tl
+  end.
+
+Lemma cs_apply_writes_app : forall a b n, cs_apply_writes (a ++ b) n = cs_apply_writes b (cs_apply_writes a n).
+Proof. intros. unfold cs_apply_writes. apply fold_left_app. Qed.
+
+Lemma cs_update_state_nodes : forall cfg st round tx r st' s o e,
+    cs_update_state cfg st round tx r = Applied st' s o e -> st_nodes st' = cs_nodes_after st tx r.
+Proof.
+  intros cfg st round tx r st' s o e H. unfold cs_update_state in H.
+  destruct (cs_update_ideal cfg st round tx r) as [st0 s0 o0 e0| |] eqn:E; try discriminate.
+  inversion H; subst. cbn [st_nodes].
+  apply cs_update_ideal_applied in E. destruct E as (_ & _ & _ & _ & N & _). exact N.
+Qed.
+
+(* the nodes after any history are the initial nodes overwritten by the writes of the successfully
+   applied calls only: whatever a chargeably failed, internally failed or rejected call wrote while
+   it ran is invisible to every later read *)
+Lemma cs_c02_nodes_after_history : forall cfg h st,
+    st_nodes (cs_run cfg st h) = cs_apply_writes (cs_committed_writes cfg st h) (st_nodes st).
+Proof.
+  intros cfg h. unfold cs_run. induction h as [|[[round tx] r] tl IH]; intros st.
+  - reflexivity.
+  - cbn [fold_left cs_committed_writes]. rewrite IH, cs_apply_writes_app. unfold cs_step.
+    destruct (cs_update_state cfg st round tx r) as [st' s o e| |] eqn:E; cbn [cs_post].
+    + f_equal. rewrite (cs_update_state_nodes _ _ _ _ _ _ _ _ _ E). unfold cs_nodes_after.
+      destruct (tx_type tx); try reflexivity; destruct r; reflexivity.
+    + destruct (tx_type tx); try reflexivity; destruct r; reflexivity.
+    + destruct (tx_type tx); try reflexivity; destruct r; reflexivity.
+Qed.
+
+Lemma cs_c02_failed_call_invisible : forall cfg st round tx r k,
+    (forall ws trs sg evs out, r <> SCOk ws trs sg evs out) ->
+    cs_get k (st_nodes (cs_post st (cs_update_state cfg st round tx r))) = cs_get k (st_nodes st).
+Proof.
+  intros cfg st round tx r k NOk.
+  destruct (cs_update_state cfg st round tx r) as [st' s o e| |] eqn:E; cbn [cs_post]; try reflexivity.
+  rewrite (cs_update_state_nodes _ _ _ _ _ _ _ _ _ E). unfold cs_nodes_after.
+  destruct (tx_type tx); try reflexivity; destruct r; try reflexivity.
+  exfalso. eapply NOk. reflexivity.
+Qed.
